@@ -39,3 +39,14 @@ Print Assumptions C17_listed_iff.
 Theorem C17_listed_once : forall o l res, clashes_from o 0 l = Ok res -> NoDup res.
 Proof. exact listed_once0. Qed.
 Print Assumptions C17_listed_once.
+
+(* the report (clashfinder.main): the running maximum kept per residue pair / chain pair while walking the clash list.
+   Every key with a listed clash is reported exactly once; the reported value is the occupancy sum of one of that key's
+   listed clashes and no listed clash of that key has a larger sum (sums are non-negative). *)
+From RV Require Import Proofs.C17Report.
+Theorem C17_report_maxima : forall l, Forall (fun kv => 0 <= snd kv)%Q l ->
+    NoDup (map fst (group_max l)) /\
+    (forall k, In k (map fst (group_max l)) <-> In k (map fst l)) /\
+    (forall k mv, In (k, mv) (group_max l) -> (forall v, In (k, v) l -> v <= mv)%Q /\ exists v, In (k, v) l /\ (v == mv)%Q).
+Proof. exact group_max_spec. Qed.
+Print Assumptions C17_report_maxima.
